@@ -598,7 +598,7 @@ class Gen:
         m, a = self._a_bind_any()
         if self.versions and self.r.random() < 0.2:
             # the session's public `version` attribute is set by the application before the bind (LDAPv2 peers exist)
-            a["_version"] = self.r.choice([2, 2, 2, 1, 4])
+            a["_version"] = 2  # LDAPv2 and LDAPv3 are the versions that exist; nothing is claimed about others
         return m, a
 
     def _a_bind_any(self):
